@@ -283,6 +283,16 @@ def run(chk):
     # recorded findings: replay each stored witness on the implementation; still deviating -> KNOWN-FINDING
     for e in chk.findings:
         w = e.get("witness", {})
+        if e.get("status") == "finding" and w.get("kind") == "sql-text":
+            # dialect finding: the witness text gives column lineage under ansi and none / other under the recorded dialect
+            ia, idl = (impl_paths(sqlimpl.run_case({"sql": w["sql"], "dialect": d, "want": ("tables", "columns")}))
+                       for d in ("ansi", w["dialect"]))
+            if isinstance(ia, list) and ia and (not isinstance(idl, list) or pairs_of(idl) != pairs_of(ia)):
+                if e["id"] not in chk.known_hits:
+                    chk.known(e["id"])
+            else:
+                chk.stale.append({"kind": "finding-no-longer-reproduces", "id": e["id"], "witness": w, "impl": idl})
+            continue
         if e.get("status") != "finding" or w.get("kind") != "sql-pairs":
             continue
         i = sqlimpl.run_case({"sql": w["sql"], "dialect": w["dialect"], "want": ("tables", "columns")})
